@@ -176,7 +176,7 @@ def r09c(R):
                             line=n.lineno)
 
 
-@rule('R09.d', ('C09',), 'stop-all empties the queue before stopping the '
+@rule('R09.d', ('C09', 'C20'), 'stop-all empties the queue before stopping the '
       'current job; stop routes reach the controller', floor=4,
       decides='stop-all leaves the queue empty so that nothing further starts')
 def r09d(R):
